@@ -70,6 +70,7 @@ func hlRegisterProtos() {
 			}
 			p.Payouts.ChallengeInterval = 16
 			p.Payouts.ChallengeGracePeriod = 4
+			p.Payouts.ChallengeBits = 2
 			return p
 		}
 		config.Consensus[hlProtoFuture] = mk(protocol.ConsensusFuture, 0, 0, 0, config.Consensus[protocol.ConsensusFuture].StateProofInterval)
@@ -161,6 +162,8 @@ type hlSim struct {
 	stats map[string]int
 	// when set, every group offered to the evaluator is recorded with its outcome
 	lastBlockGroups []hlGroupOutcome
+	// accounts that never propose (so that they become absent)
+	noPropose map[basics.Address]bool
 }
 
 type hlGroupOutcome struct {
@@ -334,7 +337,7 @@ func (s *hlSim) pickProposer() (basics.Address, bool) {
 	var online []basics.Address
 	for _, a := range s.u.keyed {
 		d := s.m.acct(rnd, a)
-		if d.Status == basics.Online && !d.VoteID.IsEmpty() {
+		if d.Status == basics.Online && !d.VoteID.IsEmpty() && !s.noPropose[a] {
 			online = append(online, a)
 		}
 	}
